@@ -74,6 +74,7 @@ def plan(tier, seed):
     shards = [(r, MAPS.index(m), lo) for r in ress for m in maps for lo in range(0, len(PATTERNS), 128)]
     shards.append(("empty",))
     shards.append(("flagonly",))
+    shards.append(("lengths",))
     shards += [("tracks", k) for k in range(2, 7)]
     shards += [("headers", k) for k in range(8)]
     shards += [("big", lo) for lo in range(0, len(PATTERNS), 128)]
@@ -123,6 +124,27 @@ def run_shard(shard, ctx):
                     if header in ("ExpertSingle", "HardDrums"):
                         for pad in (("", " "), ("", "\t"), ("\t", ""), ("   ", " \t ")):
                             _one(ctx, 192, sync, mname, "between", fs, "lanes-flags", ["2 = N 0 0"], group, ["12 = N 1 1"], pat, sus, longest, header=header, pad=pad)
+        return
+    if shard[0] == "lengths":
+        # length VALUES: every value 0..300 and values around powers of two and ten, on equal-length chords, mixed
+        # chords, single and open notes (identity vs equality of integers, narrow integer types, digit counts)
+        vals = sorted(set(range(0, 301)) | {2**k + d for k in (8, 15, 16, 31, 32, 53, 63, 64) for d in (-1, 0, 1)} | {10**k + d for k in (3, 6, 9, 12) for d in (-1, 0)})
+        mname, mlines = MAPS[0]
+        sync = ["0 = TS 4", "0 = B 120000"] + mlines
+        for L in vals:
+            ctx.node()
+            for pat in ((L, L, None, None, None), (L, L, L, L, L), (None, L, None, None, L), (L, None, L + 1, None, None), (None, None, L, None, None), ("open", L), (0, L, None, None, L)):
+                sus, longest = expected_note(pat)
+                group = pat_lines(pat) + ["10 = N 6 %d" % (L + 2)]
+                body = ["2 = N 0 0"] + group
+                text = mk(res=192, sync=sync, tracks={"ExpertSingle": body})
+                expected = [[[2, 0, 0, 2, 0, True], [10, sus, longest, 10 + longest, 0, True]], 0]
+                got = e1.run_probe(probe, text)
+                ctx.case(text, nontrivial=True, sample=lambda: dict(body=body))
+                ctx.evaluations += 13
+                ctx.hist["length_values"] += 1
+                if got != expected:
+                    e1.report(ctx, "sustain", text, PROBE_SRC, [expected], got, "length value %d: sustain / end tick / end time / last-note-end differ: body=%r" % (L, body))
         return
     if shard[0] == "tracks":
         # whole tracks: K notes, every assignment of a length out of {0, 1, 5, 40} to every note - the longest
